@@ -15,8 +15,44 @@ func main() {
 		"contains a Delete of a present key that is not the last entry, or a mutation of a frozen hash, or a Merge/PutAll " +
 		"with a non-empty operand; distinct = distinct operation sequences"
 	rng := lib.NewRng(cfg.Seed)
-	runStringHash(cfg, res, rng)
+	if cfg.Replay != "" {
+		replay(cfg, res)
+	} else {
+		runStringHash(cfg, res, rng)
+	}
 	res.Write(cfg)
+}
+
+// replay re-runs exactly the input(s) of a replay file on the current implementation, prints what
+// happens, and emits the same single case for the model.
+func replay(cfg *lib.Config, res *lib.Result) {
+	cf := &lib.CasesFile{Imports: []string{"Model.Base", "Model.StringHash", "Corr.CorrC09"}, Typ: "list op * list out",
+		Obligations: map[string]string{"stringhash_model": "sh_mismatches cases"}}
+	for _, in := range lib.ReplayInputs(cfg.Replay) {
+		var x struct {
+			Kind string `json:"kind"`
+			Ops  []shOp `json:"ops"`
+		}
+		lib.Remarshal(in, &x)
+		if x.Kind != "stringhash" {
+			continue
+		}
+		c, bad, want := runShHistory(x.Ops)
+		res.Evaluations++
+		for i, o := range x.Ops {
+			fmt.Printf("  %-28s => %s\n", o.String(), c.outs[i])
+		}
+		if bad >= 0 {
+			fmt.Printf("FAILS at step %d: %s returned %s, the insertion-ordered map returns %s\n", bad, x.Ops[bad], c.outs[bad], want)
+			res.Violate(lib.Violation{Clause: "stringhash-abstract-map",
+				What:  fmt.Sprintf("step %d %s returned %s, the insertion-ordered map returns %s", bad, x.Ops[bad], c.outs[bad], want),
+				Input: map[string]interface{}{"kind": "stringhash", "ops": x.Ops[:bad+1]}})
+		} else {
+			fmt.Println("implementation agrees with the abstract map on this history")
+		}
+		cf.Add(c.gallina(), in)
+	}
+	res.CorrFiles = append(res.CorrFiles, cf.WriteTo(cfg.Out, "cases_stringhash"))
 }
 
 func shNontrivial(c shCase) bool {
@@ -77,7 +113,7 @@ func runStringHash(cfg *lib.Config, res *lib.Result, rng *lib.Rng) {
 				What: fmt.Sprintf("step %d %s returned %s, the insertion-ordered map returns %s", bad, ops[bad], c.outs[bad], want),
 				Input: map[string]interface{}{"kind": "stringhash", "ops": ops[:bad+1]}})
 		}
-		if toCoq || bad >= 0 {
+		if toCoq || (bad >= 0 && len(res.Violations) <= 20) {
 			cf.Add(c.gallina(), map[string]interface{}{"kind": "stringhash", "ops": ops})
 		}
 		if total%977 == 1 {
